@@ -104,8 +104,26 @@ Check pushdown_sound_right : forall on p wl wr L R,
   forall k, right_push_ok k = true -> plan_right k on wl wr L R p = plan_before k on wl wr L R p.
 Print Assumptions pushdown_sound_right.
 
-(* UNsound under the NULL-supplying side of an outer join (what PredicatePushdownRule must respect
-   and does not: finding class 6) *)
+(* the pushdown rule as repaired in /repo (2cb4862) only makes the pushes proved sound above *)
+Theorem pushdown_rule_sound : forall k on p wl wr L R,
+  (forall l, In l L -> length l = wl) ->
+  match push_decision k wl p with
+  | PLeft => plan_left k on wl wr L R p = plan_before k on wl wr L R p
+  | PRight => plan_right k on wl wr L R p = plan_before k on wl wr L R p
+  | PStay | POther => True
+  end.
+Proof. exact rule_sound_lemma. Qed.
+Check pushdown_rule_sound : forall k on p wl wr L R,
+  (forall l, In l L -> length l = wl) ->
+  match push_decision k wl p with
+  | PLeft => plan_left k on wl wr L R p = plan_before k on wl wr L R p
+  | PRight => plan_right k on wl wr L R p = plan_before k on wl wr L R p
+  | PStay | POther => True
+  end.
+Print Assumptions pushdown_rule_sound.
+
+(* UNsound under the NULL-supplying side of an outer join: what the rule has to respect (it did not
+   before 2cb4862: finding F-C19-6, fixed) *)
 Theorem pushdown_unsound_outer :
   let on := ECmp CEq (ECol 0) (ECol 1) in
   let p := ECmp CEq (ECol 1) (ELit (VInt 2)) in
@@ -121,15 +139,16 @@ Check pushdown_unsound_outer :
   plan_right JLeft on 1 1 [[VInt 1]] [[VInt 2]] p = [[VInt 1; VNull]].
 Print Assumptions pushdown_unsound_outer.
 
-(* the rule model decides from the columns it sees (finding class 4) *)
-Theorem pushdown_blind_refuted :
+(* HISTORICAL (finding F-C19-4, fixed by 2cb4862): the old rule decided from the columns it saw; the
+   repaired rule leaves this predicate above the join *)
+Theorem historical_pushdown_blind :
   let p := EAnd (ECmp CEq (ECol 0) (ELit (VInt 1))) (EIn false (ECol 1) [ELit (VInt 3)]) in
-  push_decision 1 p = PLeft /\ only_left 1 p = false.
+  push_decision_old 1 p = PLeft /\ only_left 1 p = false /\ push_decision JInner 1 p = PStay.
 Proof. exact push_blind_refuted. Qed.
-Check pushdown_blind_refuted :
+Check historical_pushdown_blind :
   let p := EAnd (ECmp CEq (ECol 0) (ELit (VInt 1))) (EIn false (ECol 1) [ELit (VInt 3)]) in
-  push_decision 1 p = PLeft /\ only_left 1 p = false.
-Print Assumptions pushdown_blind_refuted.
+  push_decision_old 1 p = PLeft /\ only_left 1 p = false /\ push_decision JInner 1 p = PStay.
+Print Assumptions historical_pushdown_blind.
 
 (* ------------------------------------------------------------------ constant folding *)
 (* the folded filter keeps exactly the rows of the original (x AND FALSE, x OR TRUE, TRUE AND x,
@@ -206,7 +225,7 @@ Example ex_tlp : defined_on (EOr (ECmp CGt (ECol 0) (ELit (VInt 1))) (EIsNull fa
 Proof. repeat split; vm_compute; reflexivity. Qed.
 (* the pushdown hypotheses are satisfiable and the fold model folds something *)
 Example ex_push : only_left 2 (ECmp CEq (ECol 1) (ELit (VInt 1))) = true /\ left_push_ok JLeft = true /\
-                  push_decision 2 (ECmp CEq (ECol 1) (ELit (VInt 1))) = PLeft.
+                  push_decision JLeft 2 (ECmp CEq (ECol 1) (ELit (VInt 1))) = PLeft.
 Proof. repeat split; reflexivity. Qed.
 Example ex_fold : fold_step (EAnd (ECmp CEq (ELit (VInt 1)) (ELit (VInt 1))) (ECmp CLt (ECol 0) (ELit (VInt 3)))) = FSimp (ECmp CLt (ECol 0) (ELit (VInt 3)))
                   /\ fold_step (EOr (ECol 0) (ELit (VBool true))) = FRemoved.
